@@ -17,8 +17,41 @@ def base_files(r, methods):
           ("multi.dat", c01.gen_content(r, r.choice([2, 3, 4]), r.randrange(1100, 1700)), m(), 0),
           ("multie.dat", c01.gen_content(r, r.choice([2, 4]), r.randrange(1030, 1400)), m(), r.choice([1, 2])),
           ("(2)map.w3m", c01.gen_content(r, 1, r.randrange(600, 1200)), "0", 0)]      # a user file whose name looks like a special one
+    # contents whose genuine CRC32 is a value a verifier may take for "no checksum" (0, all ones)
+    fs.append(("crc0.bin", crc_forge(c01.gen_content(r, 1, r.randrange(20, 60)), 0), "0", 0))
+    fs.append(("crcf.bin", crc_forge(c01.gen_content(r, 4, r.randrange(20, 60)), 0xFFFFFFFF), "0", 0))
     r.shuffle(fs)
     return fs
+
+
+def crc_forge(prefix, target):
+    """prefix + 4 bytes such that zlib.crc32 of the whole equals target"""
+    import zlib
+    tab = []
+    for i in range(256):
+        c = i
+        for _ in range(8):
+            c = (c >> 1) ^ 0xEDB88320 if c & 1 else c >> 1
+        tab.append(c)
+    rev = {t >> 24: (i, t) for i, t in enumerate(tab)}
+    want = target ^ 0xFFFFFFFF
+    # walk back four steps: the register before each of the four bytes
+    idx = []
+    reg = want
+    for _ in range(4):
+        i, t = rev[reg >> 24]
+        idx.append(i)
+        reg = ((reg ^ t) << 8) & 0xFFFFFFFF
+    idx.reverse()
+    cur = zlib.crc32(prefix) ^ 0xFFFFFFFF
+    out = bytearray()
+    for i in idx:
+        byte = (cur ^ i) & 0xFF
+        out.append(byte)
+        cur = (cur >> 8) ^ tab[i]
+    data = bytes(prefix) + bytes(out)
+    assert zlib.crc32(data) == target, (hex(zlib.crc32(data)), hex(target))
+    return data
 
 
 def alterations(r, size, regions, big):
@@ -147,6 +180,7 @@ def run(tier, seed, replay=None):
         # data change plus a special value in the checksum field (0 / all ones / 1 are values a
         # verifier may take for "no checksum"): single-unit checksum and every entry of a sector table
         forged = []
+        attr_forged = 0
         for n, info in lay["files"].items():
             pos, csize, fsize, flags = info
             if not flags & FL_CRC or csize == 0:
@@ -162,9 +196,26 @@ def run(tier, seed, replay=None):
                 for val in (b"\0\0\0\0", b"\xff\xff\xff\xff", b"\1\0\0\0"):
                     for do in datas:
                         forged.append([(do, bytes([b["bytes"][do] ^ 0x41])), (fo, val)])
+        # the same for the CRC32 column of (attributes) when that file is stored as it is (header 8 bytes, then one entry per block)
+        ainfo = lay["files"].get("(attributes)")
+        if ainfo and not ainfo[3] & (FL_COMPRESS | FL_ENC) and ainfo[1] == ainfo[2] and b["cfg"]["attrs"] in ("c", "f"):
+            a0 = ainfo[0]
+            import zlib
+            for k, f in enumerate(b["files"]):
+                info = lay["files"].get(f[0])
+                if info is None or info[1] == 0:
+                    continue
+                fo = a0 + 8 + 4 * k
+                if int.from_bytes(b["bytes"][fo:fo + 4], "little") != zlib.crc32(f[1]):
+                    continue          # not where this file's entry is
+                attr_forged = attr_forged + 1
+                for val in (b"\0\0\0\0", b"\xff\xff\xff\xff"):
+                    for do in (info[0] + info[1] - 1, info[0] + info[1] // 2):
+                        forged.append([(do, bytes([b["bytes"][do] ^ 0x41])), (fo, val)])
         toks = ["-"] + [alt_token(b["bytes"], a) for a in alts] + ["%x:%s" % (o, C.hexs(v)) for o, v in multi] + ["+".join("%x:%s" % (o, C.hexs(v)) for o, v in f) for f in forged]
         b["alts"] = [None] + [(a[0], 1) for a in alts] + [(o, len(v)) for o, v in multi] + [(min(o for o, _ in f), max(o + len(v) for o, v in f) - min(o for o, _ in f)) for f in forged]
         b["toks"] = toks
+        b["attr_forged"] = attr_forged
         names = ",".join(C.hexs(f[0].encode()) for f in b["files"] if f[0] != "(signature)")
         b["names"] = [f[0] for f in b["files"] if f[0] != "(signature)"]
         for j in range(0, len(toks), 48):
@@ -275,7 +326,7 @@ def run(tier, seed, replay=None):
     res.extra["crashes_on_altered_archives_counted_not_judged_here"] = crash_examples
     res.extra["protected_regions_hit"] = regions_hit
     res.extra["archives"] = [{"id": b["id"], "version": b["cfg"]["ver"], "attrs": b["cfg"]["attrs"], "sector_crc": b["cfg"]["crc"], "signed": b["signed"], "prefix": b["prefix"], "bytes": len(b["bytes"]),
-                              "alterations": len(b["toks"])} for b in bases]
+                              "alterations": len(b["toks"]), "attribute_crc_entries_forged": b.get("attr_forged", 0)} for b in bases]
     # ---------------------------------------------------------------- crypto level
     sweeps = []
     specs = [(3000, 0, 3000, 100, 1), (3000, 0, 3000, 0, 1), (3000, 0, 3000, 2928, 1), (4608, 512, 4096, 1512, 1), (5000, 1024, 3000, 1024, 1), (70000, 0, 70000, 65500, 211), (140000, 512, 139000, 131040, 409)]
